@@ -1,4 +1,5 @@
 import Acra.Model.IENA
+import Acra.Lemmas.ReviewC08Records
 namespace Acra.Props.C08
 open Acra.Py Acra.Model.IENA Acra.Gen.IENA
 
@@ -14,6 +15,37 @@ theorem IENA_unpack_payload_le (t : Base) (buf : Bytes) : (Base.unpack t buf).1.
   repeat' split
   all_goals simp [slice]
   all_goals omega
+
+/-- [review] the ordinary exceptions of the straight-line base decoder, listed: `ValueError` (shorter than
+    the header), bare `Exception` (length field ≠ buffer length), `struct.error` -/
+theorem IENA_unpack_outcomes (t : Base) (buf : Bytes) :
+    (Base.unpack t buf).2 = .ok () ∨ (Base.unpack t buf).2 = .error .value ∨
+    (Base.unpack t buf).2 = .error .generic ∨ (Base.unpack t buf).2 = .error .struct := by
+  simp only [Base.unpack]
+  repeat' split
+  all_goals first
+    | (simp; done)
+    | (rename_i e h; have := structUnpackFrom_error _ _ _ _ h; subst this; simp)
+
+/-- [review] an accepted packet: the payload is `buf[14:-2]`, so `|payload| = |buf| − 16` (this ties the
+    payload-relative work bounds below to the input length; `IENA_unpack_payload_le` alone allows the
+    prior state's payload) -/
+theorem IENA_unpack_ok_payload (t : Base) (buf : Bytes) (h : (Base.unpack t buf).2 = .ok ()) :
+    (Base.unpack t buf).1.payload = slice buf 14 (buf.length - 2) ∧
+    (Base.unpack t buf).1.payload.length = buf.length - 16 ∧ 14 ≤ buf.length := by
+  generalize hr : Base.unpack t buf = r at h ⊢
+  simp only [Base.unpack] at hr
+  repeat' split at hr
+  all_goals subst hr
+  all_goals simp_all [slice, IENA_HEADER_LENGTH]
+  all_goals omega
+
+/-- [review] witness buffer: IENA-M packet, two parameters (3-byte dataset + pad, empty dataset) -/
+def wIENAM : Bytes :=
+  [0, 1, 0, 16, 0, 0, 0, 0, 0, 0, 0, 0, 0, 0,  0, 1, 0, 2, 0, 3, 0xAA, 0xBB, 0xCC, 0,  0, 3, 0, 4, 0, 0,  0xDE, 0xAD]
+
+example : (Base.unpack Base.fresh wIENAM).2 = .ok () ∧ (Base.unpack Base.fresh wIENAM).1.payload.length = 16 :=
+  ⟨by rfl, by rfl⟩
 
 /-- every iteration of the IENA-M parameter loop consumes at least the 6-byte parameter header,
     never reports `fuel`, and fails on an empty remainder -/
@@ -34,6 +66,32 @@ theorem decM_progress : Progress decM where
   empty := by
     intro x n h
     simp [decM, structUnpack, IENAM_FORMAT, IENAM_FORMAT_LEN, Fmt.size, codesSize, Code.size] at h
+
+/-- [review] the per-iteration bound of DESIGN §5 C08, stated (Progress only records `0 < n`): an accepted
+    IENA-M parameter advances the offset by the 6-byte header + the dataset + one pad byte when the
+    dataset is odd — at least 6 bytes; header and dataset lie inside the remaining bytes -/
+theorem decM_advance_ge (b : Bytes) (p : MParam) (n : Nat) (h : decM b = .ok (p, n)) :
+    6 ≤ n ∧ n = 6 + p.dataset.length + p.dataset.length % 2 ∧ 6 + p.dataset.length ≤ b.length := by
+  simp only [decM] at h
+  split at h
+  · rename_i pid dl m hh
+    have hl := structUnpack_ok_length _ _ _ hh
+    simp only [IENAM_FORMAT, IENAM_FORMAT_LEN, Fmt.size, codesSize, Code.size, List.length_take] at hl
+    split at h
+    · simp at h
+    · rename_i hlt
+      simp only [IENAM_FORMAT_LEN, List.length_drop] at hlt
+      simp only [Except.ok.injEq, Prod.mk.injEq, IENAM_FORMAT_LEN] at h
+      obtain ⟨rfl, rfl⟩ := h
+      simp only [slice_length]
+      have : min (6 + m) b.length - 6 = m := by omega
+      rw [this]
+      refine ⟨by omega, ?_, by omega⟩
+      rcases Nat.mod_two_eq_zero_or_one m with h2 | h2 <;> simp [h2]
+  · simp at h
+  · simp at h
+
+example : decM [0, 1, 0, 2, 0, 3, 0xAA, 0xBB, 0xCC, 0, 9, 9] = .ok (⟨1, 2, [0xAA, 0xBB, 0xCC]⟩, 10) := by rfl
 
 /-- `IENAM.unpack` terminates on every buffer: the fuel the model gives the loop (payload length + 1)
     is never exhausted; the result is a value or an ordinary exception -/
@@ -70,5 +128,64 @@ theorem IENAM_items_le (t : MState) (buf : Bytes) (h : (MState.unpack t buf).2 =
         intro _
         have h1 := decOff_items_le decM moreRem b'.payload decM_progress _ 0 ps hd
         omega
+
+example : (MState.unpack MState.fresh wIENAM).2 = .ok () ∧
+    (MState.unpack MState.fresh wIENAM).1.parameters = [⟨1, 2, [0xAA, 0xBB, 0xCC]⟩, ⟨3, 4, []⟩] := ⟨by rfl, by rfl⟩
+
+/-- [review] work bound with the real stride, relative to the INPUT: an accepted IENA-M packet of `|buf|`
+    bytes has at most ⌈(|buf| − 16)/6⌉ parameters (in particular fewer than `|buf|`) -/
+theorem IENAM_items_stride (t : MState) (buf : Bytes) (h : (MState.unpack t buf).2 = .ok ()) :
+    (MState.unpack t buf).1.parameters.length * 6 ≤ (buf.length - 16) + 5 := by
+  revert h
+  simp only [MState.unpack]
+  cases hu : Base.unpack t.base buf with
+  | mk b' r =>
+    cases r with
+    | error e => simp
+    | ok u =>
+      have hpl := (IENA_unpack_ok_payload t.base buf (by rw [hu])).2.1
+      rw [hu] at hpl
+      simp only at hpl ⊢
+      cases hd : decOff decM moreRem b'.payload (b'.payload.length + 1) 0 with
+      | error e => simp
+      | ok ps =>
+        simp only
+        intro _
+        have h1 := Acra.Lemmas.ReviewC08.decOff_items_stride decM moreRem b'.payload decM_progress 6
+          (fun b x n hb => (decM_advance_ge b x n hb).1) _ 0 ps hd
+        omega
+
+/-- [review] the exceptions `IENAM.unpack` can end with: those of the base decoder, or those of one
+    parameter step (`struct.error`, bare `Exception`) — never `fuel` -/
+theorem IENAM_unpack_outcomes (t : MState) (buf : Bytes) :
+    (MState.unpack t buf).2 = .ok () ∨ (MState.unpack t buf).2 = .error .value ∨
+    (MState.unpack t buf).2 = .error .generic ∨ (MState.unpack t buf).2 = .error .struct := by
+  have hf := IENAM_unpack_total t buf
+  have hb := IENA_unpack_outcomes t.base buf
+  revert hf
+  simp only [MState.unpack]
+  cases hu : Base.unpack t.base buf with
+  | mk b' r =>
+    rw [hu] at hb
+    cases r with
+    | error e => intro _; simpa using hb
+    | ok u =>
+      simp only
+      cases hd : decOff decM moreRem b'.payload (b'.payload.length + 1) 0 with
+      | ok ps => simp
+      | error e =>
+        simp only
+        intro hf
+        rcases Acra.Lemmas.ReviewC08.decOff_error_source _ _ _ _ _ _ hd with rfl | ⟨o, ho⟩
+        · exact absurd rfl hf
+        · simp only [decM] at ho
+          split at ho
+          · split at ho
+            · simp at ho; subst ho; simp
+            · simp at ho
+          · simp at ho; subst ho; simp
+          · rename_i e' he
+            have := structUnpack_error _ _ _ he
+            subst this; simp at ho; subst ho; simp
 
 end Acra.Props.C08
